@@ -308,6 +308,14 @@ impl Cfg {
             // one less than / exactly / one more than what fills the MTU (2 fragments), and a
             // datagram of 3 (MTU 36) or 4 (MTU 34) fragments, i.e. with MIDDLE fragments
             let m = self.fills_mtu();
+            if self.ip_mtu == 1000 {
+                // fragmentation-buffer edge (FRAGMENTATION_BUFFER_SIZE = 1500 octets of IP
+                // packet, whatever the link header): one datagram that fits the link, and
+                // fragmented ones whose IP packet is 1486, 1487 (the buffer less an Ethernet
+                // header, plus one) and exactly 1500 octets long
+                let z = self.ip_len(0);
+                return [m, 1486 - z, 1487 - z, 1500 - z];
+            }
             return [m - 1, m, m + 1, m + 17];
         }
         if self.slots >= 4 {
@@ -2454,6 +2462,19 @@ fn configs(tier: Tier) -> Vec<(Cfg, usize)> {
                     v.push((c, d));
                 }
             }
+        }
+    }
+    // fragmentation-buffer edge (IPv4, tx alphabet, IP MTU 1000): datagrams whose IP packet is
+    // 1486 / 1487 / 1500 octets, i.e. within one link header of the 1500-octet egress buffer
+    for kind in [Kind::Udp, Kind::Icmp, Kind::Raw] {
+        for eth in [true, false] {
+            if tier == Tier::Quick && kind != Kind::Udp {
+                continue;
+            }
+            let mut c = Cfg { phase: Phase::Tx, kind, eth, v6: false, slots: 2, k: 0, via_b: false, ip_mtu: 1000, ck: Ck::Default };
+            c.k = 3100;
+            let d = if tier == Tier::Quick { 4 } else { 6 };
+            v.push((c, d));
         }
     }
     // small payload rings with 4 metadata slots (16 and 24 octets + 2*hdr), sizes {2,6,8}+hdr:
